@@ -25,4 +25,13 @@ NOT_CLAIMED = {
     for i in range(1, 21)
 }
 
-# ---- claimed properties are appended below as they come on line ----
+# ---- claimed properties: one file per property in checklib/props_d/Cxx.py, each calling prop("Cxx", ...) ----
+def _load():
+    import glob
+    import os
+    here = os.path.dirname(os.path.abspath(__file__))
+    for f in sorted(glob.glob(os.path.join(here, "props_d", "C*.py"))):
+        exec(compile(open(f).read(), f, "exec"), {"prop": prop})
+
+
+_load()
